@@ -154,14 +154,62 @@ def scen_keys(ch, params, out):
         em.close()
 
 
+ALPHABET = ["a", "B", "z", "_", "-", "1", "\u00e9", " ", ".", '"']
+
+
+def all_strings(maxlen):
+    import itertools
+    out = []
+    for n in range(1, maxlen + 1):
+        for t in itertools.product(ALPHABET, repeat=n):
+            s_ = "".join(t)
+            if any(c in "aBz" for c in s_) and s_[0] not in "_1":      # documented domain: an ASCII letter, no leading underscore / digit
+                out.append(s_)
+    return out
+
+
+def scen_labels(ch, params, out):
+    """wide(r) alphabet: for a solver-chosen key s and EVERY other key t over the alphabet, equal labels imply folded-equal keys"""
+    import keyword
+    from json_to_models.models.base import prepare_label
+    from vflib import emitcheck
+    strings = all_strings(params.get("maxlen", 3))
+    s_ = ch.choose("key", strings, shard=True)
+    cu = ch.flag("convert_unicode")
+    snake = ch.flag("field_name(snake_case)")
+    try:
+        label = prepare_label(s_, convert_unicode=cu, to_snake_case=snake)
+    except Exception as e:
+        out.fail("label_raises", f"prepare_label({s_!r}, convert_unicode={cu}, snake={snake}): {type(e).__name__}: {e}", "label_raises")
+        return
+    out.info = {"key": s_, "label": label}
+    out.check(label.isidentifier() and not keyword.iskeyword(label), "label_not_identifier", lambda: f"{s_!r} -> {label!r} (cu={cu}, snake={snake})",
+              "label_not_identifier")
+    fs = emitcheck.fold(s_, cu)
+    clash = []
+    for t in strings:
+        if t == s_:
+            continue
+        try:
+            lt = prepare_label(t, convert_unicode=cu, to_snake_case=snake)
+        except Exception:
+            continue
+        if lt == label and emitcheck.fold(t, cu) != fs:
+            clash.append(t)
+    out.check(not clash, "distinct_keys_same_label", lambda: f"{s_!r} and {clash[:4]} all become {label!r} although they differ after case/punctuation folding (cu={cu}, snake={snake})",
+              "distinct_keys_same_label")
+
+
 def parts(tier):
     if tier == "quick":
         return [SMT("quoting", "vflib.props.c11:kernel_quoting", {}, timeout=200, mode="SMT-S"),
                 CH("keys", "vflib.props.c11:scen_keys", {}, shards=16, timeout=170, path_timeout=30),
-                CH("class_names_vs_root_names", "vflib.props.c03:scen_roots", {"frameworks": ["pydantic", "dataclasses"]}, shards=10, timeout=170, path_timeout=30)]
+                CH("class_names_vs_root_names", "vflib.props.c03:scen_roots", {"frameworks": ["pydantic", "dataclasses"]}, shards=10, timeout=170, path_timeout=30),
+                CH("labels_alphabet", "vflib.props.c11:scen_labels", {"maxlen": 3}, shards=16, timeout=170, path_timeout=30)]
     return [SMT("quoting", "vflib.props.c11:kernel_quoting", {}, timeout=200, mode="SMT-S"),
             CH("keys", "vflib.props.c11:scen_keys", {"pool": "full"}, shards=16, timeout=1500, path_timeout=30),
-            CH("class_names_vs_root_names", "vflib.props.c03:scen_roots", {}, shards=10, timeout=600, path_timeout=30)]
+            CH("class_names_vs_root_names", "vflib.props.c03:scen_roots", {}, shards=10, timeout=600, path_timeout=30),
+            CH("labels_alphabet", "vflib.props.c11:scen_labels", {"maxlen": 4}, shards=16, timeout=2400, path_timeout=60)]
 
 
 META = {
@@ -172,7 +220,8 @@ META = {
     "functions_encoded": ["PydanticModelCodeGenerator._get_field_kwargs", "AttrsModelCodeGenerator.field_data", "DataclassModelCodeGenerator.field_data",
                           "prepare_label", "ModelMeta.generate_name", "ModelRegistry.fix_name_duplicates"],
     "symbolic_on_path": ["code point c (SMT)", "pair of keys from the pool", "framework", "unicode conversion bit", "whether the keys name nested models"],
-    "bounds": {"quick": "all code points (SMT); 34-key pool: all pairs x 5 frameworks x 2 x 2", "thorough": "72-key pool"},
+    "bounds": {"quick": "all code points (SMT); 34-key pool: all pairs x 5 frameworks x 2 x 2; every key of <=3 chars over a 10-char alphabet against all others (label injectivity modulo folding)",
+               "thorough": "72-key pool; keys of <=4 chars"},
     "outside_claim": ["distinctness of field names for keys outside the pool (unidecode / inflection / regex are not encodable)",
                       "keys containing lone surrogates (not encodable in UTF-8 output)"],
     "assumptions": ["CPython decodes a string literal char-wise (validated each run against ast.literal_eval)", "json.dumps / repr quote char-wise (validated each run)",
